@@ -81,8 +81,15 @@ def _pipeline_info(pipe, data, context, former_data=None):
             done = [set(d["inputs"]) for d in info]
             merged = done[0]
             for d in done[1:]:
-                merged.union(d)
-            new_data = OrderedDict([(k, v) for k, v in data.items() if k not in merged])
+                merged = merged.union(d)
+            if isinstance(data, (OrderedDict, dict)):
+                new_data = OrderedDict(
+                    [(k, v) for k, v in data.items() if k not in merged]
+                )
+            else:
+                # columns selected by position inside the output of a previous
+                # step: the remaining ones belong to the same variables
+                new_data = list(data)
 
             info = _pipeline_info(
                 "passthrough", new_data, context, former_data=new_data
